@@ -259,6 +259,56 @@ def run(chk):
         if ok is not True:
             chk.violation('impl-vs-spec', {'call': call, 'declared return type': ret}, {'result': repr(res)[:200], 'matches': ok})
         chk.nontrivial.add('sig:' + call)
+    # ---------------- 4b. every registered function of arity 0-2 (XPath 3.1) on typed values: a successful call returns a
+    #                      value that matches the declared return type
+    NSP = {'http://www.w3.org/2005/xpath-functions': '', 'http://www.w3.org/2005/xpath-functions/math': 'math:',
+           'http://www.w3.org/2005/xpath-functions/map': 'map:', 'http://www.w3.org/2005/xpath-functions/array': 'array:',
+           'http://www.w3.org/2001/XMLSchema': 'xs:'}
+    SKIPF = {'doc', 'collection', 'uri-collection', 'unparsed-text', 'unparsed-text-lines', 'json-doc', 'trace', 'error', 'environment-variable',
+             'available-environment-variables', 'random-number-generator', 'load-xquery-module', 'transform', 'unparsed-text-available',
+             'doc-available', 'exp10', 'serialize'}
+    ARGS = ["1", "-1", "0", "2.5", "1e0", "xs:double('NaN')", "xs:float('1.5')", "'a'", "''", "'1'", "xs:untypedAtomic('1')", "xs:untypedAtomic('a')",
+            "xs:anyURI('a')", "true()", "()", "(1, 2)", "('a', 'b')", "/r", "/r/text()", "/r/@a", "xs:date('2000-01-01')", "xs:dateTime('2000-01-01T10:00:00Z')",
+            "xs:time('10:00:00')", "xs:dayTimeDuration('PT1H')", "xs:yearMonthDuration('P1Y')", "xs:duration('P1Y1D')", "xs:QName('a')", "xs:hexBinary('0A')",
+            "xs:gYear('2000')", "[1, 2]", "[]", "map{'a': 1}", "map{}", "abs#1", "function($x) { $x }"]
+    ARGS2 = ["1", "'a'", "()", "(1, 2)", "xs:untypedAtomic('1')", "/r", "[1, 2]", "map{'a': 1}", "abs#1", "xs:date('2000-01-01')", "2.5", "true()", "xs:dayTimeDuration('PT1H')", "'en'"]
+    doc4 = ET.ElementTree(ET.XML('<r a="1">t<b>u</b></r>'))
+    seenf = set()
+    nsig = 0
+    for (qname, arity), sig in sorted(parser.function_signatures.items(), key=lambda kv: (kv[0][0].namespace or '', kv[0][0].local_name, kv[0][1])):
+        pre = NSP.get(qname.namespace)
+        if pre is None or qname.local_name in SKIPF or (qname.namespace, qname.local_name, arity) in seenf or arity > 2:
+            continue
+        seenf.add((qname.namespace, qname.local_name, arity))
+        ret = sig.rpartition(') as ')[2]
+        fname = pre + qname.local_name
+        if arity == 0:
+            calls = [f'{fname}()']
+        elif arity == 1:
+            calls = [f'{fname}({a})' for a in ARGS]
+        else:
+            pairs = [(a, b) for a in ARGS2 for b in ARGS2]
+            if quick:
+                pairs = rng.sample(pairs, 40)
+            calls = [f'{fname}({a}, {b})' for a, b in pairs]
+        for call in calls:
+            chk.evaluations += 1
+            try:
+                res = parser.parse(call).evaluate(XPathContext(doc4))
+            except ElementPathError:
+                continue
+            except Exception:
+                continue          # foreign exceptions are the subject of C03
+            nsig += 1
+            chk.count('signature-sweep')
+            try:
+                ok = match_sequence_type(res, ret, parser, strict=False)
+            except ElementPathError as ex:
+                ok = 'error ' + str(ex.code)
+            if ok is not True:
+                chk.violation('impl-vs-spec', {'call': call, 'declared return type': ret}, {'result': repr(res)[:200], 'matches': ok})
+            chk.nontrivial.add('sigsweep:' + call)
+    chk.distribution['successful calls checked against the declared return type'] = nsig
     chk.rule = ('every constructible atomic type against every atomic type; seeded sequences of 0-3 typed items x occurrence x target type through '
                 'instance of (with spacing variants), treat as and match_sequence_type; all occurrence x occurrence x 10 x 10 type pairs through '
                 'is_sequence_type_restriction; a table of kind / map / array / function tests; ~170 built-in function calls against their declared '
